@@ -9,17 +9,28 @@ CHECKS = {
  "C04": {
   "text": ("Theorems (no axioms). Two-port: over an abstract field with conjugation, for each of the 72 conversions the "
            "output satisfies its defining relation of vnaconv(3) for exactly the states satisfying the input's; aliased = "
-           "separate; round trip; chains; the nine input-impedance functions; hypotheses shown satisfiable over Q[i]. The "
-           "Gallina definitions and per-function lemmas are regenerated from src/vnaconv_*.c on every run (translator, "
-           "validated against the compiled functions). n-port: mathcomp theorems for all n for stozn/stoyn/ztosn/ytosn/"
-           "ztoyn/ytozn at specification level; the executable model of the nine n-port functions (on the LU model) is "
-           "tied by exact-rational correspondence for n = 1..6 (aliased and separate) and proved equal to the translated "
-           "two-port functions at n = 2 for either pivot order; independent relation oracles search for failing inputs."),
+           "separate; round trip; chains; the nine input-impedance functions; every hypothesis (including those on the "
+           "converted matrix in round trip / chain) shown satisfiable over Q[i]. The Gallina definitions and per-function lemmas "
+           "are regenerated from src/vnaconv_*.c on every run (translator, validated against the compiled functions). n-port: "
+           "the executable model of the nine n-port functions (on the LU model) is tied by exact-rational correspondence for "
+           "n = 1..6 (aliased and separate); ABOUT THAT MODEL, for ALL n and for stozn/stoyn/ztosn/ytosn/ztoyn/ytozn: the returned "
+           "matrix satisfies its port relation of vnaconv(3) (n ports) for exactly the states satisfying the input's, with "
+           "hypotheses on the input only (the factored matrix I-S, S Z0+Z0*, Z+Z0, I+Z0 Y, Z, Y has a trivial kernel; k_j <> 0; "
+           "z_j + conj z_j <> 0), stated at Q[i] where C19's theorem discharges the pivot hypothesis (abstract-field versions with "
+           "`pivots nonzero` as premise in Conv/ConvNModel.v), with a 3-port non-vacuity example; the model is proved equal to the "
+           "translated two-port functions at n = 2 for either pivot order; mathcomp theorems for all n at SPECIFICATION level "
+           "(`*_spec_all_n`, K (A^-1 B) K^-1 written with invmx) for stozn/stoyn/ztosn/ytosn; independent relation oracles search "
+           "for failing inputs."),
   "design_ref": "DESIGN.md section 4 C04 and section 9; docs/design_C04.md",
   "note": ("Trusted: Coq kernel (+vm_compute), translator conv2.py (validated per run), the reading of vnaconv(3) in "
-           "Conv/ConvRel.v, exact arithmetic in place of binary64 (rounding outside every theorem). Partial: the three "
-           "n-port *zin functions have n = 2 theorems (ytozin none) and correspondence only; the link from the general-n "
-           "specification to the executable model is C19's LU correctness theorem."),
-  "technique": "Coq proof over a model regenerated from the C text (field tactic, mathcomp) + differential correspondence",
+           "Conv/ConvRel.v (two ports) and Conv/ConvNModel.v relSn/relZn/relYn (n ports), exact arithmetic in place of binary64 "
+           "(rounding outside every theorem). Partial: the three n-port *zin functions have n = 2 theorems (ytozin none) and "
+           "correspondence only; the nine two-port *tozi theorems carry, for X <> S, the extra premise Xtos_ok (denominators of "
+           "vnaconv_Xtos), wider than the singular set of vnaconv_Xtozi itself; the n = 2 model = two-port theorems are stated for "
+           "the two constant comparators with an explicit pivot hypothesis (shown satisfiable; that the real comparator meets a "
+           "nonzero pivot is C19's c19_pivots_nonzero_iff_nonsingular, not composed at n = 2); the mathcomp specification and "
+           "the model are linked through the defining linear system (c04_stozn_defining_system_all_n) and by having the same "
+           "same-states theorem, not by a matrix-type bridge."),
+  "technique": "Coq proof over a model regenerated from the C text (field tactic) + list-matrix linear algebra on the LU model (all n) + mathcomp specification + differential correspondence",
  },
 }
